@@ -182,6 +182,30 @@ __CPROVER_decreases(NB - i)
                   canaries=[dict(name="reverse_edge_cost", where="body:rewire", rx=r"nbhIncCost = motionCostIdx\(NEWM, i\);", repl="nbhIncCost = motionCostIdx(i, NEWM);"),
                             dict(name="no_motion_check", where="body:rewire", rx=r"&&\s*checkMotionIdx\(NEWM, i\)", repl="")]))
 
+# BIT*'s incumbent update
+BITF = "src/ompl/geometric/planners/informedtrees/src/BITstar.cpp"
+BG_RULES = [
+    (r"VertexConstPtr newBestGoal = curGoalVertex_;", "GoalRef newBestGoal = curGoalVertex_;", 0), (r"ompl::base::Cost newCost = bestCost_;", "double newCost = bestCost_;", 0),
+    (r"for \(auto it = graphPtr_->goalVerticesBeginConst\(\); it != graphPtr_->goalVerticesEndConst\(\); \+\+it\)", "for (GoalRef it = 1; it <= NGOALS; ++it)", 0),
+    (r"\(\*it\)->isInTree\(\)", "G_inTree[it]", 0), (r"static_cast<bool>\(newBestGoal\)", "(newBestGoal != NULLREF)", 0), (r"\(\*it\)->getId\(\) == newBestGoal->getId\(\)", "(it == newBestGoal)", 0),
+    (r"costHelpPtr_->isCostEquivalentTo\(\(\*it\)->getCost\(\), newCost\)", "EQUIV(G_cost[it], newCost)", 0), (r"costHelpPtr_->isCostBetterThan\(\(\*it\)->getCost\(\), newCost\)", "BETTER(G_cost[it], newCost)", 0),
+    (r"\(\*it\)->getDepth\(\)", "G_depth[it]", 0), (r"\(\*it\)->getCost\(\)", "G_cost[it]", 0), (r"newBestGoal->getDepth\(\)", "G_depth[newBestGoal]", 0), (r"curGoalVertex_->getCost\(\)", "G_cost[curGoalVertex_]", 0), (r"newBestGoal = \*it;", "newBestGoal = it;", 0), (r"newBestGoal->getCost\(\)", "G_cost[newBestGoal]", 0), (r"curGoalVertex_->getDepth\(\)", "G_depth[curGoalVertex_]", 0),
+    (r"queuePtr_->registerSolutionCost\(bestCost_\);", "queue_registered = bestCost_;", 0), (r"graphPtr_->registerSolutionCost\(bestCost_\);", "graph_registered = bestCost_;", 0), (r"this->goalMessage\(\);", "", 0),
+    (r"Planner::pdef_->getIntermediateSolutionCallback\(\)\(this, this->bestPathFromGoalToStart\(\), bestCost_\);", "CALLBACK(curGoalVertex_, bestCost_);", 0),
+    (r"static_cast<bool>\(Planner::pdef_->getIntermediateSolutionCallback\(\)\)", "HAS_CALLBACK", 0),
+]
+UNITS.append(dict(name="c04_bitstar_updateGoalVertex", template="C04/bit_goal.c", mode="plain", entry="h_bit_updateGoalVertex", flags=["--bounds-check", "--pointer-check"], unwind=6, level="bounded", bound="<= 3 goal vertices",
+                  backend="cadical", timeout=300, functions=["ompl::geometric::BITstar::updateGoalVertex"],
+                  sources=[dict(name="updateGoalVertex", file=BITF, sig=r"void BITstar::updateGoalVertex\(\)", rules=BG_RULES, loops={"allow_uncontracted": True})],
+                  canaries=[dict(name="cost_of_another_goal", where="body:updateGoalVertex", rx=r"newBestGoal = it;\s*newCost = G_cost\[newBestGoal\];\s*\}\s*\}\s*\}\s*else", repl="newCost = G_cost[it]; } } } else", count=1)]))
+
+# EIT*'s approximate-solution record (unit of C03): the difference stored with an approximate solution is the state's cost-to-goal (C04: "among approximate ones
+# the smaller goal difference first" is only meaningful if the recorded difference is the true one), its cost is the cost-to-come, never marked optimized
+import copy as _copy, importlib.util as _ilu, os as _os
+_s3 = _ilu.spec_from_file_location("c03", _os.path.join(_os.path.dirname(__file__), "C03.py")); _C03 = _ilu.module_from_spec(_s3); _s3.loader.exec_module(_C03)
+for _u in _C03.UNITS:
+    if _u["name"] == "c03_eitstar_updateApproximateSolution":
+        _v = _copy.deepcopy(_u); _v["name"] = "c04_eitstar_updateApproximateSolution"; _v["needs"] = ["eit_approx"]; UNITS.append(_v)
 ASSUMPTIONS = [
     "solution fields are not NaN; the solutions compared carry the same objective (or all none)",
     "the objective's isCostBetterThan is the base '<' or MaximizeMinClearance's '>' (the two implementations in the tree); user-defined objectives must themselves be strict weak orders",
